@@ -140,12 +140,11 @@ def schemeLoop : Bytes → Bool → Option Bool
   | c :: r, up => if !hasFlag 0 c then none else schemeLoop r (up || hasFlag 1 c)
 
 /-- `canonicalize_protocol(input)` -/
-def canonicalizeProtocol (idna : Spec.Idna) (L : Nat) (v : Bytes) : Option Bytes :=
-  if v.isEmpty then some [] else
-  let input := if v.getLast? == some 0x3A then v.dropLast else v
+def canonicalizeProtocol (idna : Spec.Idna) (L : Nat) (input : Bytes) : Option Bytes :=
+  if input.isEmpty then some [] else
   if Model.isSpecial input then some input else
   match input with
-  | [] => protocolSlow idna L input          -- `input[0]` of an empty view: see DESIGN (the value ":" alone)
+  | [] => some []
   | c0 :: rest =>
     if !hasFlag 0 c0 || c0 == 0x2B || c0 == 0x2D || c0 == 0x2E || isAsciiDigit c0 then protocolSlow idna L input
     else match schemeLoop rest (hasFlag 1 c0) with
